@@ -3,6 +3,8 @@ mod core;
 mod proj;
 
 mod c01;
+mod c03der;
+mod der;
 mod c0235;
 mod c04;
 mod c06;
